@@ -10,7 +10,7 @@ import Mathlib.Tactic.IntervalCases
 set_option maxRecDepth 100000
 
 namespace PCV.C15Grid
-open PCV
+open PCV PCV.MV PCV.C15Spec
 
 /-- what is decided at one grid point -/
 def GridPoint (n D : Nat) : Prop :=
